@@ -46,7 +46,11 @@ pub fn all_rules() -> Vec<ArtifactRule> {
 fn desc_variants() -> Vec<(&'static str, TargetDescription)> {
     let mut empty_digest = TargetDescription::new();
     empty_digest.insert(HashAlgorithm::Sha256, HashValue::new(vec![]));
-    vec![("sha256", world::desc(1)), ("sha256+sha512", world::desc2(1)), ("empty-digest", empty_digest), ("no-algorithms", TargetDescription::new())]
+    let mut unknown = TargetDescription::new();
+    unknown.insert(HashAlgorithm::Unknown("md5".into()), HashValue::new(vec![0xab, 0xcd]));
+    let mut known_and_unknown = world::desc(1);
+    known_and_unknown.insert(HashAlgorithm::Unknown("blake2b-256".into()), HashValue::new(vec![1; 32]));
+    vec![("sha256", world::desc(1)), ("sha256+sha512", world::desc2(1)), ("empty-digest", empty_digest), ("no-algorithms", TargetDescription::new()), ("unknown-algorithm", unknown), ("sha256+unknown-algorithm", known_and_unknown)]
 }
 
 pub fn links(thorough: bool) -> Vec<(String, LinkMetadata)> {
@@ -62,6 +66,16 @@ pub fn links(thorough: bool) -> Vec<(String, LinkMetadata)> {
             out.push((format!("artifacts:{n}x{dn}:materials"), mk("l", m.clone(), Default::default(), None, ByProducts::new(), vec![])));
             out.push((format!("artifacts:{n}x{dn}:products"), mk("l", Default::default(), m, None, ByProducts::new(), vec![])));
         }
+    }
+    // artifact paths that are not in normal form, alone and next to the path they normalise to
+    for path in ["./a", "a/../b", "a//b", "a/", "/abs/p", "..", ".", "a/./b", "./", "a\\b", " a", "a "] {
+        let one: world::Artifacts = [(world::vpath(path), world::desc(1))].into_iter().collect();
+        out.push((format!("artifacts:odd-path:{path:?}:materials"), mk("l", one.clone(), Default::default(), None, ByProducts::new(), vec![])));
+        out.push((format!("artifacts:odd-path:{path:?}:products"), mk("l", Default::default(), one, None, ByProducts::new(), vec![])));
+    }
+    for (x, y) in [("./a", "a"), ("a//b", "a/b"), ("a/", "a"), ("d/../a", "a"), ("A", "a")] {
+        let two: world::Artifacts = [(world::vpath(x), world::desc(1)), (world::vpath(y), world::desc(2))].into_iter().collect();
+        out.push((format!("artifacts:odd-path-pair:{x:?}+{y:?}"), mk("l", two.clone(), two, None, ByProducts::new(), vec![])));
     }
     // environment
     for (en, env) in [("none", None), ("empty", Some(BTreeMap::new())), ("one", Some([("k".to_string(), "v".to_string())].into_iter().collect())), ("odd", Some([("".to_string(), "".to_string()), ("é\n".to_string(), "\"\\".to_string())].into_iter().collect()))] {
@@ -199,8 +213,30 @@ fn class_of(name: &str) -> String {
 }
 
 /// Value leg for any serde type.
+fn write_with<T: Serialize>(style: &str, v: &T) -> Result<String, String> {
+    use in_toto::interchange::{DataInterchange, Json, JsonPretty};
+    match style {
+        "compact" => serde_json::to_string(v).map_err(|e| e.to_string()),
+        "pretty" => serde_json::to_string_pretty(v).map_err(|e| e.to_string()),
+        "Json::to_writer" => {
+            let mut b = vec![];
+            Json::to_writer(&mut b, v).map_err(|e| format!("{e:?}"))?;
+            String::from_utf8(b).map_err(|e| e.to_string())
+        }
+        _ => {
+            let mut b = vec![];
+            JsonPretty::to_writer(&mut b, v).map_err(|e| format!("{e:?}"))?;
+            String::from_utf8(b).map_err(|e| e.to_string())
+        }
+    }
+}
+
 fn value_roundtrip<T: Serialize + DeserializeOwned + PartialEq>(acc: &mut Acc, typ: &str, name: &str, v: &T) {
-    for (style, ser) in [("compact", serde_json::to_string(v)), ("pretty", serde_json::to_string_pretty(v))] {
+    for style in ["compact", "pretty", "Json::to_writer", "JsonPretty::to_writer"] {
+        let ser = match guard(|| write_with(style, v)) {
+            Guard::Done(r) => r,
+            Guard::Panicked(l, m) => Err(format!("PANIC {l}: {m}")),
+        };
         acc.evaluations += 1;
         let witness = |txt: &str| json!({"kind": "value", "type": typ, "value": name, "style": style, "serialized": txt});
         let txt = match ser {
@@ -229,12 +265,12 @@ fn value_roundtrip<T: Serialize + DeserializeOwned + PartialEq>(acc: &mut Acc, t
             acc.violation(&key, "parse(serialize(v)) differs from v", || witness(&txt));
             continue;
         }
-        let again = if style == "compact" { serde_json::to_string(&back) } else { serde_json::to_string_pretty(&back) };
+        let again = write_with(style, &back);
         match again {
             Ok(t2) if t2 == txt => acc.outcome("roundtrip-identical"),
             Ok(t2) => {
                 acc.outcome("bytes-differ");
-                let key = if name.contains("sha256+sha512") { format!("digest-map-order-unstable:{typ}") } else { format!("bytes-differ:{typ}:{}", class_of(name)) };
+                let key = if name.contains("sha256+sha512") || name.contains("sha256+unknown") { format!("digest-map-order-unstable:{typ}") } else { format!("bytes-differ:{typ}:{}", class_of(name)) };
                 acc.violation(&key, "serialize(parse(serialize(v))) is not byte-identical to serialize(v)", || {
                     let mut w = witness(&txt);
                     w["second"] = json!(t2);
@@ -242,6 +278,45 @@ fn value_roundtrip<T: Serialize + DeserializeOwned + PartialEq>(acc: &mut Acc, t
                 });
             }
             Err(e) => acc.violation(&format!("cannot-serialize:{typ}:{}", class_of(name)), &format!("{e}"), || witness(&txt)),
+        }
+    }
+}
+
+/// `MetadataWrapper::to_bytes` read back by `try_from_bytes`, `from_bytes` and
+/// `MetablockBuilder::from_raw_metadata`.
+fn bytes_roundtrip(acc: &mut Acc, name: &str, v: &MetadataWrapper) {
+    use in_toto::models::{MetablockBuilder, MetadataType};
+    acc.evaluations += 1;
+    let witness = |how: &str| json!({"kind": "bytes", "value": name, "reader": how});
+    let bytes = match guard(|| v.to_bytes()) {
+        Guard::Done(Ok(b)) => b,
+        Guard::Done(Err(e)) => {
+            acc.violation(&format!("cannot-serialize:MetadataWrapper::to_bytes:{}", class_of(name)), &format!("to_bytes fails: {e:?}"), || witness("-"));
+            return;
+        }
+        Guard::Panicked(l, m) => {
+            acc.violation(&format!("panic:{l}"), &m, || witness("-"));
+            return;
+        }
+    };
+    let typ = if matches!(v, MetadataWrapper::Layout(_)) { MetadataType::Layout } else { MetadataType::Link };
+    let readers: Vec<(&str, Guard<Option<MetadataWrapper>>)> = vec![
+        ("try_from_bytes", guard(|| MetadataWrapper::try_from_bytes(&bytes).ok())),
+        ("from_bytes", guard(|| MetadataWrapper::from_bytes(&bytes, typ).ok())),
+        ("MetablockBuilder::from_raw_metadata", guard(|| MetablockBuilder::from_raw_metadata(&bytes).ok().map(|b| b.build().metadata))),
+    ];
+    for (how, r) in readers {
+        match r {
+            Guard::Done(Some(back)) if &back == v => {
+                if back.to_bytes().ok().as_ref() != Some(&bytes) {
+                    acc.violation(&format!("bytes-differ:to_bytes:{}", class_of(name)), "to_bytes of the re-read value differs", || witness(how));
+                } else {
+                    acc.outcome("roundtrip-identical");
+                }
+            }
+            Guard::Done(Some(_)) => acc.violation(&format!("value-changed:to_bytes/{how}:{}", class_of(name)), "reading back the library's own byte form gives a different value", || witness(how)),
+            Guard::Done(None) => acc.violation(&format!("own-output-rejected:to_bytes/{how}:{}", class_of(name)), "the library cannot read its own byte form", || witness(how)),
+            Guard::Panicked(l, m) => acc.violation(&format!("panic:{l}"), &m, || witness(how)),
         }
     }
 }
@@ -317,6 +392,63 @@ pub fn documents(thorough: bool) -> Vec<(String, String)> {
     docs.push(("layout/text:match-trailing-token".into(), r#"{"_type":"layout","expires":"2031-06-01T00:00:00Z","readme":"","keys":{},"inspect":[],"steps":[{"_type":"step","name":"s","threshold":1,"expected_materials":[["MATCH","a","WITH","PRODUCTS","FROM","s","extra"]],"expected_products":[],"pubkeys":[],"expected_command":[]}]}"#.into()));
     docs.push(("layout/text:pubkey-not-hex".into(), format!(r#"{{"_type":"layout","expires":"2031-06-01T00:00:00Z","readme":"","keys":{{}},"inspect":[],"steps":[{{"_type":"step","name":"s","threshold":1,"expected_materials":[],"expected_products":[],"pubkeys":["{}"],"expected_command":[]}}]}}"#, "Z".repeat(64))));
     docs.push(("layout/text:command-string-instead-of-array".into(), r#"{"_type":"layout","expires":"2031-06-01T00:00:00Z","readme":"","keys":{},"inspect":[],"steps":[{"_type":"step","name":"s","threshold":1,"expected_materials":[],"expected_products":[],"pubkeys":[],"expected_command":"a b"}]}"#.into()));
+    // every token position of every rule form replaced by: its lower-case spelling, another keyword
+    // of the grammar, a foreign word, the empty string; one token dropped; one token doubled.
+    // Whatever the parser accepts must come out again exactly as written.
+    let layout_with_rule = |rule: &Value| -> String {
+        json!({"_type": "layout", "expires": "2031-06-01T00:00:00Z", "readme": "", "keys": {}, "inspect": [{"_type": "inspection", "name": "i", "expected_materials": [rule], "expected_products": [], "run": []}],
+               "steps": [{"_type": "step", "name": "s", "threshold": 1, "expected_materials": [], "expected_products": [rule], "pubkeys": [], "expected_command": []}]}).to_string()
+    };
+    let forms: Vec<Value> = vec![
+        json!(["CREATE", "a"]), json!(["DELETE", "a"]), json!(["MODIFY", "a"]), json!(["ALLOW", "a"]), json!(["REQUIRE", "a"]), json!(["DISALLOW", "a"]),
+        json!(["MATCH", "a", "WITH", "PRODUCTS", "FROM", "s"]),
+        json!(["MATCH", "a", "WITH", "MATERIALS", "FROM", "s"]),
+        json!(["MATCH", "a", "IN", "d", "WITH", "PRODUCTS", "FROM", "s"]),
+        json!(["MATCH", "a", "WITH", "MATERIALS", "IN", "e", "FROM", "s"]),
+        json!(["MATCH", "a", "IN", "d", "WITH", "PRODUCTS", "IN", "e", "FROM", "s"]),
+    ];
+    let words = ["CREATE", "MATCH", "IN", "WITH", "FROM", "MATERIALS", "PRODUCTS", "OTHER", ""];
+    for (fi, form) in forms.iter().enumerate() {
+        let toks = form.as_array().unwrap();
+        for ti in 0..toks.len() {
+            let cur = toks[ti].as_str().unwrap();
+            let mut repl: Vec<Value> = words.iter().filter(|w| **w != cur).map(|w| json!(w)).collect();
+            repl.push(json!(cur.to_lowercase()));
+            repl.push(json!(format!(" {cur}")));
+            repl.push(json!(1));
+            repl.push(Value::Null);
+            for (ri, r) in repl.iter().enumerate() {
+                if r.as_str() == Some(cur) {
+                    continue;
+                }
+                let mut t = toks.clone();
+                t[ti] = r.clone();
+                docs.push((format!("layout/text:rule-form{fi}-token{ti}-replaced{ri}"), layout_with_rule(&Value::Array(t))));
+            }
+            let mut t = toks.clone();
+            t.remove(ti);
+            docs.push((format!("layout/text:rule-form{fi}-token{ti}-dropped"), layout_with_rule(&Value::Array(t))));
+            let mut t = toks.clone();
+            t.insert(ti, toks[ti].clone());
+            docs.push((format!("layout/text:rule-form{fi}-token{ti}-doubled"), layout_with_rule(&Value::Array(t))));
+        }
+    }
+    // numbers and members of the wrong shape
+    let step_with = |member: &str, v: Value| -> String {
+        let mut s = json!({"_type": "step", "name": "s", "threshold": 1, "expected_materials": [], "expected_products": [], "pubkeys": [], "expected_command": []});
+        s[member] = v;
+        json!({"_type": "layout", "expires": "2031-06-01T00:00:00Z", "readme": "", "keys": {}, "inspect": [], "steps": [s]}).to_string()
+    };
+    for (n, v) in [("negative", json!(-1)), ("string", json!("1")), ("null", Value::Null), ("u32-max", json!(4294967295u64)), ("u32-max+1", json!(4294967296u64)), ("exp", serde_json::from_str::<Value>("1e0").unwrap()), ("true", json!(true))] {
+        docs.push((format!("layout/text:threshold-{n}"), step_with("threshold", v)));
+    }
+    let link_with_by = |by: Value, env: Value| -> String { json!({"_type": "link", "name": "l", "materials": {}, "products": {}, "environment": env, "byproducts": by, "command": []}).to_string() };
+    for (n, by) in [("return-value-string", json!({"return-value": "3"})), ("return-value-2^32", json!({"return-value": 4294967296u64})), ("return-value--2^31-1", json!({"return-value": -2147483649i64})), ("return-value-float", serde_json::from_str::<Value>(r#"{"return-value": 3.0}"#).unwrap()), ("stdout-number", json!({"stdout": 5})), ("stderr-array", json!({"stderr": ["e"]})), ("extra-null", json!({"extra": null})), ("extra-object", json!({"extra": {"a": "b"}}))] {
+        docs.push((format!("link/text:byproducts-{n}"), link_with_by(by, json!({}))));
+    }
+    for (n, env) in [("value-number", json!({"k": 1})), ("value-null", json!({"k": null})), ("array", json!(["k"])), ("string", json!("k=v")), ("nested", json!({"k": {"a": "b"}}))] {
+        docs.push((format!("link/text:environment-{n}"), link_with_by(json!({}), env)));
+    }
     docs
 }
 
@@ -397,6 +529,29 @@ pub fn run(tier: Tier) -> i32 {
         }
     }
     let _: Option<Metablock> = None;
+    // repeated elements in order-preserving collections: one signer twice, one key id twice
+    {
+        let (k1, k2) = (keys::get("ed1"), keys::get("ec1"));
+        let l = ls[0].1.clone();
+        for (n, ss) in [("k1,k1", vec![k1, k1]), ("k1,k2,k1", vec![k1, k2, k1]), ("k2,k2", vec![k2, k2]), ("k2,k1", vec![k2, k1]), ("k1,k2", vec![k1, k2])] {
+            value_roundtrip(&mut acc, "Metablock", &format!("signers:{n}"), &world::sign_link(l.clone(), &ss));
+        }
+        for (n, pk) in [("a,a", vec![k1, k1]), ("a,b,a", vec![k1, k2, k1]), ("b,a", vec![k2, k1]), ("a,b", vec![k1, k2])] {
+            let st = world::step("s", 1, &pk);
+            value_roundtrip(&mut acc, "Step", &format!("pubkeys:{n}"), &st);
+            value_roundtrip(&mut acc, "LayoutMetadata", &format!("pubkeys:{n}"), &world::layout(vec![st], vec![], &[k1, k2], world::far_future()));
+        }
+    }
+    // the library's own byte form of a bare metadata value and its two readers
+    for (n, l) in ls.iter().step_by(if thorough { 3 } else { 13 }) {
+        if n.contains("other-field-named") {
+            continue;
+        }
+        bytes_roundtrip(&mut acc, n, &MetadataWrapper::Link(l.clone()));
+    }
+    for (n, l) in las.iter().step_by(if thorough { 7 } else { 41 }) {
+        bytes_roundtrip(&mut acc, n, &MetadataWrapper::Layout(l.clone()));
+    }
     // public keys and signatures
     for k in keys::all() {
         value_roundtrip(&mut acc, "PublicKey", k.name, k.public());
